@@ -61,6 +61,7 @@ FMT_REDIRECTS = [
     ("src/metrics.rs", 'format!("{}_{}", subsystem, name)', "crate::__vsup::fmt_join2(subsystem, name)"),
     ("src/registry.rs", 'format!("{}_{}", namespace, m.name())', "crate::__vsup::fmt_join2(namespace, m.name())"),
 ]
+SORT_ASSUMPTION = "std slice::sort / sort_by are replaced by their contract (stable sorted permutation; insertion sort in kani/vsup.rs) in harnesses carrying `kani::stub(<[T]>::sort, stub_sort)`: std's driftsort does not leave CBMC's symbolic execution even for one-element slices (measured)"
 FMT_ASSUMPTION = "std format! is replaced by its contract at the 5 call sites whose result is used functionally (desc.rs `format!(\"${}\", label_name)` -> \"$\" ++ name; metrics.rs build_fq_name's three joins and registry.rs gather's prefix join -> a ++ \"_\" ++ b) by exact-text rewrite in the scratch copy; every other format! builds an error message and is stubbed to the empty string. Reason: std::fmt::write does not terminate under CBMC even on concrete arguments (measured > 5 min)"
 MAPS_ASSUMPTION = "std HashMap/HashSet/BTreeMap/BTreeSet are replaced by the contract shim /verif/kani/vcoll.rs (functional map with key equality; HashMap iteration order is a nondeterministic permutation at every iteration = every hash seed; BTree* iterate in key order) through a mechanical rewrite of the `use std::collections::...` lines of counter.rs, desc.rs, histogram.rs, metrics.rs, vec.rs, registry.rs, pulling_gauge.rs in the scratch copy; the std implementations themselves are assumed to meet that contract"
 
@@ -151,7 +152,7 @@ PLAN = {
         contract_sets=["charset"],
         verus=[],
         functions=[],
-        assumptions=[MAPS_ASSUMPTION, FMT_ASSUMPTION],
+        assumptions=[MAPS_ASSUMPTION, FMT_ASSUMPTION, SORT_ASSUMPTION, "Desc::new acceptance is decided for one const + one variable label with one-character names over all of ASCII plus concrete scenarios (bounded); the identifier validators are decided on strings of <= 4 chars with one arbitrary Unicode char; per-char classifiers for every char (complete)", "registry-level clause (prefix and common labels of Registry::new_custom are not validated and may clash with a metric's own labels) is NOT decided here: see DESIGN.md C09"],
     ),
     "C05": dict(
         title="A metric vector keeps exactly one child per distinct label-value tuple",
